@@ -132,6 +132,8 @@ let () =
   let last_tick = ref 0 in
   let last_op = ref "" in
   let deadline : (string, int) Hashtbl.t = Hashtbl.create 64 in
+  let stats : (string, int) Hashtbl.t = Hashtbl.create 32 in
+  let stat k = Hashtbl.replace stats k (1 + (try Hashtbl.find stats k with Not_found -> 0)) in
   let pending_find : (name * bool * bool * csent list) option ref = ref None in
   let pending_int : (int * name * bool * bool * int * csent list * int list) option ref = ref None in
   let diverge what =
@@ -217,12 +219,17 @@ let () =
       | ["op"; "ins"; n; w; f] ->
           incr nops;
           let nn = name_of_string n and w' = n_of_int (int_of_string w) and f' = ms_ns (opt_n f) in
-          ignore (apply (OIns (nn, w', f'))); spec := c_insert !spec nn w' f'; last_op := "ins " ^ n
+          let before = List.length (!spec).c_list in
+          let known = List.exists (fun e -> e.cs_name = nn) (!spec).c_list in
+          ignore (apply (OIns (nn, w', f'))); spec := c_insert !spec nn w' f'; last_op := "ins " ^ n;
+          stat (if known then "insert_refresh" else if List.length (!spec).c_list <= before then "insert_new_evicting" else "insert_new")
       | ["op"; "find"; n; cbp; mbf] ->
           incr nops;
           let nn = name_of_string n in
           (match apply (OFind (nn, cbp = "1", mbf = "1")) with
-           | RFind c -> pending_find := Some (nn, cbp = "1", mbf = "1", c)
+           | RFind c -> pending_find := Some (nn, cbp = "1", mbf = "1", c);
+               stat (Printf.sprintf "find_%s%s_%s" (if cbp = "1" then "prefix" else "exact") (if mbf = "1" then "_mustbefresh" else "")
+                       (match c with [] -> "miss" | [_] -> "hit" | _ -> "hit_several_admissible"))
            | _ -> ());
           last_op := Printf.sprintf "find %s cbp=%s mbf=%s" n cbp mbf
       | "obs" :: "find" :: rest ->
@@ -251,7 +258,9 @@ let () =
           let sl = if sent = "-" then [] else List.map int_of_string (String.split_on_char ',' sent) in
           (match apply (OInterest (n_of_int (int_of_string face), nn, cbp = "1", mbf = "1", n_of_int (int_of_string nonce),
                                    ms_ns (opt_n life), List.map n_of_int sl)) with
-           | RInt (k, c) -> pending_int := Some (int_of_string face, nn, cbp = "1", mbf = "1", int_of_n k, c, sl)
+           | RInt (k, c) -> pending_int := Some (int_of_string face, nn, cbp = "1", mbf = "1", int_of_n k, c, sl);
+               stat (match int_of_n k with 1 -> "interest_dead_nonce" | 2 -> "interest_duplicate_nonce" | 3 -> "interest_cache_hit"
+                                         | _ -> if sl = [] then "interest_not_forwarded" else if List.length sl > 1 then "interest_forwarded_multi" else "interest_forwarded")
            | _ -> ());
           (let k = n ^ "|" ^ cbp ^ mbf in
            let l = (match opt_n life with Some x -> int_of_n x * 1000000 | None -> 4000000000) in
@@ -296,15 +305,24 @@ let () =
                       | Some e -> Some e.p_id | None -> diverge ("data: token of an entry the model does not have: " ^ tok); Some N0)
                   | None -> diverge ("data: token of an entry the model does not have: " ^ tok); Some N0)
                | _ -> Some N0) in
-          ignore (apply (OData (nn, w', f', t)));
+          (let m = List.length (List.filter (fun e -> e.p_sat) (List.concat_map (fun nd -> nd.n_pit) (!model).nodes)) in
+           ignore (apply (OData (nn, w', f', t)));
+           let m' = List.length (List.filter (fun e -> e.p_sat) (List.concat_map (fun nd -> nd.n_pit) (!model).nodes)) in
+           stat (if m' - m > 1 then "data_satisfies_several" else if m' - m = 1 then "data_satisfies_one" else "data_unsolicited_or_repeat"));
           if !admit then spec := c_insert !spec nn w' f';
           last_op := Printf.sprintf "data %s tok=%s" n tok
       | ["op"; "tick"] ->
           incr nops;
           if int_of_z (!model).timer_at <> nowi () then
             diverge (Printf.sprintf "timer: update signal served at %d, model expects it at %d" (nowi ()) (int_of_z (!model).timer_at));
-          ignore (apply OTick); last_tick := nowi (); last_op := "tick"
-      | ["op"; "dnl"] -> incr nops; ignore (apply ODnl); last_op := "dnl"
+          let nb = List.length (!model).heap in
+          ignore (apply OTick); last_tick := nowi (); last_op := "tick";
+          if List.length (!model).heap < nb then stat "tick_reaping" else stat "tick_idle"
+      | ["op"; "dnl"] -> incr nops;
+          let nb = List.length (!model).dnl in
+          ignore (apply ODnl); last_op := "dnl";
+          let d = nb - List.length (!model).dnl in
+          if d >= 100 then stat "dnl_sweep_full_batch" else if d > 0 then stat "dnl_sweep_partial" else stat "dnl_sweep_idle"
       | "obs" :: "st" :: _ -> check_state (String.sub line 7 (String.length line - 7))
       | ["obs"; "same"] ->
           (* implementation's dump equals its previous one *)
@@ -314,10 +332,11 @@ let () =
           oracle "C07" ("panic:" ^ kind) (Printf.sprintf "the implementation panicked during the operation after [%s]: %s" !last_op (String.concat " " rest));
           oracle "C08" ("panic:" ^ kind) (Printf.sprintf "the implementation panicked during the operation after [%s]: %s" !last_op (String.concat " " rest));
           diverged := true
-      | ["quiescent"] -> quiescent := true
+      | ["quiescent"] -> quiescent := true; stat "quiescent_dumps"
       | ["end"] -> ()
       | [""] | [] -> ()
       | _ -> Printf.printf "BADLINE %d %s\n" !lineno line
     done
   with End_of_file -> ());
+  Hashtbl.iter (fun k v -> Printf.printf "STAT %s %d\n" k v) stats;
   Printf.printf "DONE %d cases=%d ops=%d\n" !lineno !ncases !nops
